@@ -275,6 +275,8 @@ def run(repo, tier):
         elif hexes:
             undecided.append('a hex file is written on a path where the presence of --hex-offset is not decided')
         # argument wiring
+        if None in a.kw:
+            raise AnalysisError('cli_main: assemble() is called with **{}: which keyword arguments it receives is not established'.format(show(a.kw[None])[:60]))
         rep.check(a.kw.get('compress') == o_cmp, 'R17.5.wiring', '-c reaches assemble(compress=)',
                   lambda: Finding('R17.5.wiring', 'cli_main', a.node, 'the -c option is not what assemble() receives as compress', line=a.node.lineno), nontrivial=False)
         inc = a.kw.get('include_dirs')
